@@ -352,6 +352,9 @@ def check(run, db, tier):
     run.group(route_value_rules, Proxy(run, {'C01.route': 'C02.kernel'}), db)
     run.forgive('unitarity_value_rules', ['ortho_rules', 'inverse_rules'])
     run.forgive('route_value_rules', ['czt_rules', 'inverse_rules'])
+    # the executors being inverse pairs is of no use if a wrapper hands the image-to-pupil leg to the forward transform: which engine
+    # routine each fixed-sampling propagator reaches, per method string (shared with C01.dispatch)
+    run.group(c01.dispatch_rules, Proxy(run, {'C01.dispatch': 'C02.kernel'}), db)
     run.group(ctor_role_rules, run, db)
     run.require_instances('C02.ortho', 2)
     run.require_instances('C02.pad', 3)
